@@ -265,7 +265,9 @@ class _plot_dispatch:
 
     def configs():
         return [{"kind": "nonsense", "backend": "matplotlib"}, {"kind": "bar", "backend": "nope"}, {"kind": "map", "backend": "matplotlib"},
-                {"kind": "bar", "backend": "plotly", "dim": 2}]
+                {"kind": "bar", "backend": "plotly", "dim": 2},
+                # names that exist in the back-end module without being plot kinds (helpers, imports) are not plot kinds
+                {"kind": "get_data", "backend": "matplotlib"}, {"kind": "pop_kwargs_with_prefix", "backend": "plotly"}, {"kind": "np", "backend": "matplotlib"}]
 
     def inputs(b):
         return dict(histogram=mk_hist(b, "h", getattr(b.cfg, "dim", 1), 2, "static", "int64"), kind=b.cfg.kind, backend=b.cfg.backend)
@@ -469,10 +471,14 @@ class _plotly:
     bound_note = BOUND
 
     def configs():
-        return [{"kind": k, "density": d} for k in ("bar", "line", "scatter") for d in (False, True)] + [{"kind": "map", "density": False}]
+        return [{"kind": k, "density": d} for k in ("bar", "line", "scatter") for d in (False, True)] + [{"kind": "map", "density": False}] + \
+               [{"kind": k, "density": True, "collection": 2} for k in ("line", "scatter", "bar")]      # every member of a collection gets the options
 
     def inputs(b):
         c = b.cfg
+        if getattr(c, "collection", 0):
+            from .more import collection
+            return dict(h=collection(b, c.collection, "float64"))
         if c.kind == "map":
             bins = [make_binning(b, f"B{i}", "static", s) for i, s in enumerate((1, 2))]
             return dict(h=histnd(b, "h", bins, (1, 2), dtype="float64"))
@@ -489,6 +495,14 @@ class _plotly:
     @ensures("traces_carry_centres_heights_widths")
     def _(a, old, result):
         traces = rec_get(result, "data")
+        if getattr(a, "_cfg_collection", 0):
+            hs = attr(old.h, "histograms")
+            cs = [len(traces) == len(hs)]
+            for tr, hh in zip(traces, hs):
+                bins = bins_of(attr(hh, "_binnings")[0])
+                cs += [*[2 * x == l + r for x, (l, r) in zip(elems(rec_get(tr, "x")), bins)],
+                       close_list(elems(rec_get(tr, "y")), expected_data(hh, a._cfg_density, False))]
+            return And(*cs, *[same_hist(x, y) for x, y in zip(hs, attr(a.h, "histograms"))])
         tr = traces[0]
         if a._cfg_kind == "map":
             z = rec_get(tr, "z")
